@@ -5,6 +5,7 @@ PROP = "C07"
 THEOREM_FILE = "Props/C07.v"
 EXTRA_THEOREM_FILES = ["Props/C07_ops.v", "Props/C07_queries.v", "Props/C07_src.v", "Props/C07_src_ops.v"]   # part A (operators); the queries part adds its own file here
 EXTRA_THEOREM_FILES += ["Props/C07_code.v", "Props/C07_code_queries.v"]   # CODC: the C07 theorems stated about the regenerated definitions
+EXTRA_THEOREM_FILES.append("Props/C07_src_g.v")     # SRCG: IPSet.__iter__ / __hash__ / __reduce__ / __repr__
 RULE = ("pairs of IPSets built by short random histories (empty, single/mixed family, touching address 0 or the top "
         "address, nested / interleaved / adjacent / identical operands), then all four operators, every comparison, "
         "isdisjoint, membership of addresses and networks at block boundaries, size/len, iteration, iter_ipranges, "
